@@ -21,11 +21,13 @@ impl Out {
     pub fn new(prop: &str, only: Option<u64>) -> Out {
         Out { w: BufWriter::with_capacity(1 << 20, std::io::stdout()), case: 0, only, active: true, x_ok: 0, x_fail: 0, dist: BTreeMap::new(), prop: prop.to_string() }
     }
-    /// start a new case; returns false when the case is filtered out (replay of a single case)
+    /// start a new case
     pub fn next_case(&mut self) -> bool {
         self.case += 1;
         self.active = match self.only { Some(c) => c == self.case, None => true };
-        self.active
+        // always run the case (so that every random choice is consumed exactly as in the full run and a replay
+        // with --only regenerates the very same case); only the output of the other cases is suppressed
+        true
     }
     pub fn note(&mut self, key: &str) { if self.active { *self.dist.entry(key.to_string()).or_insert(0) += 1; } }
     pub fn t(&mut self, ty: &str, op: &str, pre: &str, args: &str, res: &str) {
